@@ -32,6 +32,7 @@ package main
 import (
 	"bytes"
 	"context"
+	"encoding/binary"
 	"fmt"
 	"regexp"
 	"runtime"
@@ -42,6 +43,7 @@ import (
 	"time"
 
 	"github.com/benbjohnson/clock"
+	"github.com/cespare/xxhash/v2"
 	"github.com/influxdata/influxdb/v2/cmd/influxd/run"
 	"github.com/influxdata/influxdb/v2/kit/check"
 	"github.com/influxdata/influxdb/v2/task/backend/scheduler"
@@ -77,11 +79,14 @@ type exec struct {
 	blocked  map[scheduler.ID]chan struct{}
 	conc     bool
 	ckBad    bool
-	total    int
+	total    int                   // Execute calls entered
+	exits    int                   // Execute calls returned
+	inGate   map[scheduler.ID]bool // executions currently held by the environment
 }
 
 func newExec() *exec {
-	return &exec{inflight: map[scheduler.ID]int{}, lastSF: map[scheduler.ID]time.Time{}, blocked: map[scheduler.ID]chan struct{}{}}
+	return &exec{inflight: map[scheduler.ID]int{}, lastSF: map[scheduler.ID]time.Time{}, blocked: map[scheduler.ID]chan struct{}{},
+		inGate: map[scheduler.ID]bool{}}
 }
 
 func (e *exec) Execute(ctx context.Context, id scheduler.ID, scheduledFor time.Time, runAt time.Time) error {
@@ -94,12 +99,17 @@ func (e *exec) Execute(ctx context.Context, id scheduler.ID, scheduledFor time.T
 	e.lastSF[id] = scheduledFor
 	e.total++
 	gate := e.blocked[id]
+	if gate != nil {
+		e.inGate[id] = true
+	}
 	e.mu.Unlock()
 	if gate != nil {
 		<-gate
 	}
 	e.mu.Lock()
+	delete(e.inGate, id)
 	e.inflight[id]--
+	e.exits++
 	e.mu.Unlock()
 	return nil
 }
@@ -117,6 +127,24 @@ func (e *exec) count() int {
 	e.mu.Lock()
 	defer e.mu.Unlock()
 	return e.total
+}
+
+// counts returns (entered, returned, ids held by the environment inside Execute)
+func (e *exec) counts() (int, int, []scheduler.ID) {
+	e.mu.Lock()
+	defer e.mu.Unlock()
+	var held []scheduler.ID
+	for id := range e.inGate {
+		held = append(held, id)
+	}
+	return e.total, e.exits, held
+}
+
+// workerOf mirrors TreeScheduler.iterator: xxhash of the id's 8 little-endian bytes mod workers.
+func workerOf(id scheduler.ID, workers int) uint64 {
+	var buf [8]byte
+	binary.LittleEndian.PutUint64(buf[:], uint64(id))
+	return xxhash.Sum64(buf[:]) % uint64(workers)
 }
 
 // ---------------------------------------------------------------- goroutine states
@@ -157,45 +185,67 @@ const (
 	qStuck // no quiescent state within the deadline
 )
 
+// allParked reports whether the loop goroutine exists once, all workers are parked in a channel
+// receive, and whether the loop goroutine is parked in its select.
+func allParked(nworkers int) (parked bool, loopIdle bool) {
+	loops, workers := schedStates() // stop-the-world snapshot
+	if len(loops) != 1 || len(workers) != nworkers {
+		return false, false
+	}
+	for _, w := range workers {
+		if w != "chan receive" {
+			return false, false
+		}
+	}
+	return true, loops[0] == "select"
+}
+
 // waitQuiesce polls until the scheduler can make no further progress on its own:
-// idle (loop in select, workers waiting) or spinning against blocked workers
-// (>= 4 more loop iterations without a new run while every worker is waiting).
-func waitQuiesce(e *exec, nworkers int) quiet {
-	haveSnap := false
-	var snapIters uint64
-	var snapRuns int
-	deadline := time.Now().Add(5 * time.Second)
+//
+//	idle      the loop goroutine is parked in its select and every worker is parked (one snapshot);
+//	spinning  the loop keeps running because something is due, but every due item's worker is held by
+//	          the environment: (1) all workers parked, (2) no Execute in flight except the held ones,
+//	          (3) every item of the tree that is due belongs to a held worker, (1') all workers still
+//	          parked and (2') no Execute entered or returned since (2).  A dispatch between (1) and (1')
+//	          unparks a worker, which can only park again after entering Execute, so (1')+(2') exclude it;
+//	          and no further dispatch is possible in the state seen at (3).
+func waitQuiesce(c *runner) quiet {
+	e, nworkers := c.e, c.n
+	deadline := time.Now().Add(60 * time.Second)
 	for i := 0; ; i++ {
 		if i%64 == 63 && time.Now().After(deadline) {
 			return qStuck
 		}
-		itPre := scheduler.VerifLoopIters.Load() // before the snapshot
-		loops, workers := schedStates()          // stop-the-world snapshot of goroutine states
-		ok := len(loops) == 1 && len(workers) == nworkers
-		if ok {
-			for _, w := range workers {
-				if w != "chan receive" {
-					ok = false
-				}
-			}
-		}
-		if ok && loops[0] == "select" {
+		parked, idle := allParked(nworkers)
+		if parked && idle {
 			return qIdle
 		}
-		if ok {
-			// Spinning: every worker was parked at an earlier snapshot A and is parked at this
-			// snapshot B, no Execute was entered in between, and at least 4 complete passes of the
-			// loop ran strictly between A and B (counter read after A vs. before B).  A pass that
-			// could dispatch (parked worker, due item) would have unparked the worker or started a run.
-			rn := e.count()
-			if haveSnap && rn == snapRuns && itPre >= snapIters+5 {
-				return qSpinning
+		if parked {
+			in1, out1, held := e.counts()
+			if in1 == out1+len(held) && len(held) > 0 {
+				items, nw := c.s.VerifItems()
+				now := c.mock.Now()
+				heldW := map[uint64]bool{}
+				for _, id := range held {
+					heldW[workerOf(id, nw)] = true
+				}
+				due, stuck := 0, true
+				for _, it := range items {
+					if !it.When.After(now) {
+						due++
+						if !heldW[workerOf(it.ID, nw)] {
+							stuck = false
+						}
+					}
+				}
+				if due > 0 && stuck {
+					parked2, idle2 := allParked(nworkers)
+					in2, out2, _ := e.counts()
+					if parked2 && !idle2 && in2 == in1 && out2 == out1 {
+						return qSpinning
+					}
+				}
 			}
-			if !haveSnap || rn != snapRuns {
-				haveSnap, snapIters, snapRuns = true, scheduler.VerifLoopIters.Load(), rn
-			}
-		} else {
-			haveSnap = false
 		}
 		if i < 50 {
 			runtime.Gosched()
@@ -227,7 +277,7 @@ func (c *runner) add(d time.Duration) {
 	go func() { c.mock.Add(d); close(done) }()
 	select {
 	case <-done:
-	case <-time.After(2 * time.Second):
+	case <-time.After(20 * time.Second):
 		c.wedged = true
 	}
 }
@@ -236,7 +286,7 @@ func (c *runner) quiesce() quiet {
 	if c.wedged {
 		return qStuck
 	}
-	q := waitQuiesce(c.e, c.n)
+	q := waitQuiesce(c)
 	if q == qStuck {
 		c.wedged = true
 	}
